@@ -296,6 +296,11 @@ func (env *ByteEnv) EvalBool(e ast.Expr, v int) (val, known bool) {
 		if res, ok := env.evalCall(x, v); ok && len(res) >= 1 && res[0].known {
 			return res[0].n != 0, true
 		}
+	case *ast.IndexExpr, *ast.SelectorExpr:
+		// a table of booleans indexed by the byte (isPlain[b]), or a boolean field of a table entry
+		if n, ok := env.evalInt(x, v); ok {
+			return n != 0, true
+		}
 	case *ast.UnaryExpr:
 		if x.Op == token.NOT {
 			b, k := env.EvalBool(x.X, v)
